@@ -172,6 +172,207 @@ def presence_rules(rep, ctx, mod, cg, prefix=""):
 
 
 
+def length_rules(rep, ctx, mod, cg, prefix=""):
+    """the per-level length rules (also the guards behind C08's raw-data accesses: that check runs them too)"""
+    l0 = mod.fn("decode_level0_header")
+    # ---- R4: length rules ------------------------------------------------------------
+    rid = rep.rule(prefix + "R4a", "level 0/1: success only with header_len >= min_len(level), full read, min_len + path_len <= header_len", 3)
+    if l0:
+        Fl0 = ctx.facts(l0)
+        M0 = Matcher(l0)
+        # min_len is a phi {22 under level 0, 25 under level 1}
+        env = {}
+        require_on_success(rep, rid, ctx, l0, [
+            ("header_len >= min_len", ("uge", raw_at(0), ("bind", "minlen", ("or", ("phi",), ("const",))))),
+            ("extend_raw_data(...) != NULL", ("ne", ("call", "extend_raw_data", [("param", 0), ("param", 1), ANY]), 0)),
+        ])
+        from ..lin import Lin, linform
+
+        def per_level(o, sf0=None):
+            """{level: constant} for a value that is a constant or a phi of constants selected by header_level"""
+            got = {}
+            for s_, sf in Fl0.sources(o):
+                for k in (0, 1):
+                    if M0.find_fact(("eq", hdr_field("header_level", HP), k), set(sf) | set(sf0 or ()))[0] is not None:
+                        got[k] = const_val(s_) if is_const(s_) else None
+                if is_const(s_) and not got:
+                    got = {0: const_val(s_), 1: const_val(s_)}
+            return got
+
+        def symf(o):
+            if M0.match(raw_at(21), o, {}) is not None:
+                return "P"
+            if M0.match(raw_at(0), o, {}) is not None:
+                return "H"
+            d_ = l0.defn(M0.strip(o))
+            if d_ is not None and not d_.is_param and d_.op == "phi":
+                return "m%d" % d_.id
+            return None
+
+        def path_rule(fs):
+            """a fact equivalent to min_len + path_len <= header_len, in any linear spelling: returns the per-level min_len it uses"""
+            for f in fs:
+                if f[0] not in ("ule", "uge", "ult", "ugt"):
+                    continue
+                lx = linform(l0, f[1], symf) if not is_const(f[1]) else Lin(const_val(f[1]))
+                ly = linform(l0, f[2], symf) if not is_const(f[2]) else Lin(const_val(f[2]))
+                if lx is None or ly is None:
+                    continue
+                dlt = lx.add(ly, -1) if f[0] in ("ule", "ult") else ly.add(lx, -1)        # "small side" - "large side"
+                strict = 1 if f[0] in ("ult", "ugt") else 0
+                if dlt.t.get("P") != 1 or dlt.t.get("H") != -1:
+                    continue
+                ms = [k for k in dlt.t if k.startswith("m")]
+                if len(ms) == 1 and dlt.t[ms[0]] == 1 and set(dlt.t) == {"P", "H", ms[0]}:
+                    pl = per_level(("v", int(ms[0][1:])))
+                    return {k: (v + dlt.c + strict if v is not None else None) for k, v in pl.items()}
+                if not ms and set(dlt.t) == {"P", "H"}:
+                    return {0: dlt.c + strict, 1: dlt.c + strict}
+            return None
+        # value of min_len per level
+        for v, pb, b in success_edges(Fl0, l0)[:1]:
+            fs = facts_for_success(Fl0, l0, v, pb, b)
+            f, e = M0.find_fact(("uge", raw_at(0), ("bind", "minlen", ("or", ("phi",), ("const",)))), fs)
+            if f is not None:
+                got = per_level(e["minlen"])
+                rep.check(rid, got == {0: 22, 1: 25}, "min_len is 22 for level 0 and 25 for level 1", l0.file, "recovered %s" % got,
+                          function=l0.cname, obj="min_len")
+        for v, pb, b in success_edges(Fl0, l0):
+            fs = facts_for_success(Fl0, l0, v, pb, b)
+            got2 = path_rule(fs)
+            rep.check(rid, got2 == {0: 22, 1: 25}, "decode_level0_header: return via bb%s carries min_len + path_len <= header_len (in any linear spelling) with min_len 22 / 25" % (pb if pb is not None else b),
+                      "%s:%s" % (l0.file, l0.blocks[pb if pb is not None else b].term.line()),
+                      "the path-length rule found uses min_len %s" % got2 if got2 else "no fact relating path_len, header_len and the level's minimum on this return; facts: %s" % sorted(describe_fact(l0, x) for x in fs)[:8],
+                      function=l0.cname, obj="path-rule")
+    rid = rep.rule(prefix + "R4b", "level 1: success only if level-0 part, extended-header read and extended-header decode all succeeded", 3)
+    l1 = rep.need(rid, mod.fn("decode_level1_header"), "function decode_level1_header")
+    if l1:
+        require_on_success(rep, rid, ctx, l1, [
+            ("decode_level0_header != 0", ("ne", ("call", "decode_level0_header", [("param", 0), ("param", 1)]), 0)),
+            ("read_l1_extended_headers != 0", ("ne", ("call", "read_l1_extended_headers", [("param", 0), ("param", 1)]), 0)),
+            ("decode_extended_headers(header, raw_len_before - 2) != 0", ("ne", ("call", "decode_extended_headers", [("or", ("param", 0), ("load", ("param", 0))), ("bin", "sub", RAWLEN, 2)]), 0)),
+        ])
+    rid = rep.rule(prefix + "R4c", "level 2: success only with header_len >= 26, full read, extended-header chain from offset 24 accepted", 3)
+    l2 = rep.need(rid, mod.fn("decode_level2_header"), "function decode_level2_header")
+    if l2:
+        hl = ("call", "lha_decode_uint16", [("gep", RAW, [0])])
+        require_on_success(rep, rid, ctx, l2, [
+            ("header_len >= 26", ("uge", hl, 26)),
+            ("extend_raw_data(header, stream, header_len - raw_data_len) != NULL",
+             ("ne", ("call", "extend_raw_data", [("param", 0), ("param", 1), ("bin", "sub", hl, RAWLEN)]), 0)),
+            ("decode_extended_headers(header, 24) != 0", ("ne", ("call", "decode_extended_headers", [("or", ("param", 0), ("load", ("param", 0))), 24]), 0)),
+        ])
+    rid = rep.rule(prefix + "R4d", "level 3: success only with word size 4, base read to 32, header_len <= 1 MiB and >= bytes held, full read, chain from offset 28 accepted", 6)
+    l3 = rep.need(rid, mod.fn("decode_level3_header"), "function decode_level3_header")
+    if l3:
+        hl = ("call", "lha_decode_uint32", [("gep", RAW, [24])])
+        require_on_success(rep, rid, ctx, l3, [
+            ("word size == 4", ("eq", ("call", "lha_decode_uint16", [("gep", RAW, [0])]), 4)),
+            ("extend_raw_data(header, stream, 32 - raw_data_len) != NULL",
+             ("ne", ("call", "extend_raw_data", [("param", 0), ("param", 1), ("bin", "sub", 32, RAWLEN)]), 0)),
+            ("header_len <= 1 MiB", ("ule", hl, MiB)),
+            ("header_len >= raw_data_len", ("uge", hl, RAWLEN)),
+            ("extend_raw_data(header, stream, header_len - raw_data_len) != NULL",
+             ("ne", ("call", "extend_raw_data", [("param", 0), ("param", 1), ("bin", "sub", hl, RAWLEN)]), 0)),
+            ("decode_extended_headers(header, 28) != 0", ("ne", ("call", "decode_extended_headers", [("or", ("param", 0), ("load", ("param", 0))), 28]), 0)),
+        ])
+    rid = rep.rule(prefix + "R4e", "chain walker: an extended header is decoded only if field_size + 1 <= ext_len <= bytes available", 2)
+    de = rep.need(rid, mod.fn("decode_extended_headers"), "function decode_extended_headers")
+    if de:
+        calls = list(de.calls("lha_ext_header_decode"))
+        if not calls:
+            rep.broken(rid, "no call to lha_ext_header_decode in decode_extended_headers")
+        for c in calls:
+            guarded_site(rep, rid, ctx, c, [
+                ("ext_len >= field_size + 1", ("uge", ("bind", "len"), ("bin", "add", ("bind", "fs"), 1))),
+                ("ext_len <= available_length", ("ule", ("bind", "len2"), ("bind", "avail"))),
+            ])
+        # success return only through the loop exits (zero length or offset past end), never from the reject edge
+        F = ctx.facts(de)
+        M = Matcher(de)
+        for v, pb, b in success_edges(F, de):
+            fs = facts_for_success(F, de, v, pb, b)
+            bad, _ = M.find_fact(("ult", ANY, ("bin", "add", ANY, 1)), fs)
+            bad2, _ = M.find_fact(("ugt", ("bind", "l"), ("bind", "a")), [f for f in fs if f[0] in ("ugt", "ult")
+                                                                          and M.match(("or", ("call", "lha_decode_uint16"), ("call", "lha_decode_uint32"), ("bind", "p")), f[1], {}) is not None
+                                                                          and de.defn(M.strip(f[1])) is not None and de.defn(M.strip(f[1])).op == "phi" and False])
+            rep.check(rid, bad is None, "success return is not taken from the reject edge", de.file, None, function=de.cname, obj="reject")
+    # R4e': the accepted extended header AND the size field that follows it lie inside the bytes held
+    rid = rep.rule(prefix + "R4e2", "chain walker: at each decode call offset + ext_len + field_size <= raw_data_len (symbolic linear bounds: guard fact + conservation of available_length + offset)", 3)
+    if de:
+        from ..ir import Module as IRModule
+        from ..range import Unit, Analysis, I
+        from ..sym import Sym
+        from ..rangedrv import generic_contracts
+        hmod = ctx.inlined("header")
+        hf = hmod.fn("lha_file_header_read")
+        if rep.need(rid, hf, "inlined lha_file_header_read") is not None:
+            Mh = Matcher(hf)
+            unit = Unit(hmod)
+            # A-size63: byte counts of allocated objects are below 2^62 (malloc cannot succeed otherwise)
+            unit.given = {("LHAFileHeader", "raw_data_len"): (I(0, 1 << 62), "A-size63")}
+            an = Analysis(hf, unit, generic_contracts(hmod, hf))
+            an.run()
+            an.narrow(3)
+            sy = Sym(an, ctx.facts(hf), ideal=True)
+            calls = [c for c in hf.insts() if c.op == "call" and c.callee is None and any(l.get("fn") == "decode_extended_headers" for l in c.loc)]
+            if len(calls) < 3:
+                rep.broken(rid, "expected the chain walker to be inlined at 3 sites (levels 1, 2, 3), found %d" % len(calls))
+            for c in calls:
+                e = Mh.match(("bin", "sub", ("bin", "sub", ("bind", "len"), ("bind", "fs")), 1), c.ops[2], {})
+                e2 = Mh.match(("gep", ("gep", ("load", ("field", HDR, "raw_data", ANY)), [("bind", "idx")]), [1]), c.ops[1], {})
+                rl = [f[2] for f in sy.F.at_inst(c) if f[0] in ("ule", "ult") and not is_const(f[2]) and
+                      Mh.match(("bin", "sub", ("load", ("field", HDR, "raw_data_len", ANY)), ANY), f[2], {}) is not None]
+                if e is None or e2 is None or not rl:
+                    rep.violation(rid, "operands of the decode call recognised", c.where(), "cannot recover offset / ext_len / field_size / raw_data_len", function=de.cname, obj="operands")
+                    continue
+                rlen = Mh.match(("bin", "sub", ("bind", "rl", ("load", ("field", HDR, "raw_data_len", ANY))), ANY), rl[0], {})["rl"]
+                # idx = offset + fs is where the type byte lives; the header occupies [idx - fs, idx - fs + ext_len)
+                Ls = [sy.lin(e2["idx"], c), sy.lin(e["len"], c), sy.lin(rlen, c)]
+                if any(x is None for x in Ls):
+                    rep.violation(rid, "linear forms", c.where(), "not linear", function=de.cname, obj="linear")
+                    continue
+                tot = Ls[0].add(Ls[1]).add(Ls[2], -1)
+                hi = sy.upper_lin(tot, c)
+                rep.check(rid, hi <= 0, "(offset + field_size) + ext_len - raw_data_len <= 0 at the decode call (%s)" % c.where().split(" <- ")[-2 if " <- " in c.where() else -1][:60], c.where(),
+                          "symbolic upper bound is %s: an accepted extended header may extend into (or past) the bytes needed for the next size field" % hi,
+                          function=de.cname, obj="room-for-next-size")
+            rep.assumptions.append("A-hdr32 (rule R4e2 only): offsets and lengths inside one header are reasoned about as mathematical integers, i.e. a single header's raw data is "
+                                   "shorter than 4 GiB so that the 32-bit `offset` does not wrap")
+    rid = rep.rule(prefix + "R4f", "level-1 extended headers: each must be covered by compressed_length and be at least 3 bytes; read failure rejects", 3)
+    r1 = rep.need(rid, mod.fn("read_l1_extended_headers"), "function read_l1_extended_headers")
+    if r1:
+        F = ctx.facts(r1)
+        M = Matcher(r1)
+        sts = stores_to_field(mod, HDR, "compressed_length", [r1])
+        if len(sts) != 1:
+            rep.broken(rid, "expected exactly one store to compressed_length in read_l1_extended_headers, found %d" % len(sts))
+        for s in sts:
+            e = M.match(("bin", "sub", hdr_field("compressed_length", HP), ("bind", "len")), s.ops[0], {})
+            rep.check(rid, e is not None, "compressed_length -= ext_header_len", s.where(), None, function=r1.cname, obj="sub")
+            if e is not None:
+                guarded_site(rep, rid, ctx, s, [
+                    ("compressed_length >= ext_header_len", ("uge", hdr_field("compressed_length", HP), ("inst", e["len"][1]))),
+                    ("extend_raw_data(header, stream, ext_header_len) != NULL", ("ne", ("call", "extend_raw_data", [("param", 0), ("param", 1), ("inst", e["len"][1])]), 0)),
+                ])
+                # the loop continues (back edge) only if ext_len >= 3
+                for lp in r1.loops():
+                    for latch in lp["latches"]:
+                        fs = F.on_edge(latch, lp["header"])
+                        f, _ = M.find_fact(("uge", ("inst", e["len"][1]), 3), fs)
+                        rep.check(rid, f is not None, "next iteration only if ext_header_len >= 3",
+                                  "%s:%s" % (r1.file, r1.blocks[latch].term.line()), None, function=r1.cname, obj="min3")
+    rid = rep.rule(prefix + "R4g", "extend_raw_data fails unless the stream delivered all requested bytes, and only then grows raw_data_len by that amount", 2)
+    ex = rep.need(rid, mod.fn("extend_raw_data"), "function extend_raw_data")
+    if ex:
+        require_on_success(rep, rid, ctx, ex, [
+            ("nbytes <= 1 MiB", ("ule", ("param", 2), MiB)),
+            ("lha_input_stream_read(stream, result, nbytes) != 0", ("ne", ("call", "lha_input_stream_read", [("param", 1), ANY, ("param", 2)]), 0)),
+        ])
+        for s in stores_to_field(mod, HDR, "raw_data_len", [ex]):
+            guarded_site(rep, rid, ctx, s, [("stream read succeeded", ("ne", ("call", "lha_input_stream_read", [("param", 1), ANY, ("param", 2)]), 0))])
+
+
 def run(tier, seed):
     rep = Report("C12", tier, "other",
                  "Static path analysis (available-facts dataflow and path states over the SSA control-flow graph of "
@@ -370,167 +571,7 @@ def run(tier, seed):
                 guarded_site(rep, rid3, ctx, s, [("lha_input_stream_read(stream, raw_data, raw_data_len) != 0",
                                                  ("ne", ("call", "lha_input_stream_read", [("param", 0), ANY, ANY]), 0))])
 
-        # ---- R4: length rules ------------------------------------------------------------
-        rid = rep.rule("R4a", "level 0/1: success only with header_len >= min_len(level), full read, min_len + path_len <= header_len", 3)
-        if l0:
-            Fl0 = ctx.facts(l0)
-            M0 = Matcher(l0)
-            # min_len is a phi {22 under level 0, 25 under level 1}
-            env = {}
-            require_on_success(rep, rid, ctx, l0, [
-                ("header_len >= min_len", ("uge", raw_at(0), ("bind", "minlen", ("or", ("phi",), ("const",))))),
-                ("extend_raw_data(...) != NULL", ("ne", ("call", "extend_raw_data", [("param", 0), ("param", 1), ANY]), 0)),
-                ("min_len + path_len <= header_len", ("ule", ("bin", "add", ("bind", "minlen2"), raw_at(21)), raw_at(0))),
-            ])
-            # value of min_len per level
-            for v, pb, b in success_edges(Fl0, l0)[:1]:
-                fs = facts_for_success(Fl0, l0, v, pb, b)
-                f, e = M0.find_fact(("uge", raw_at(0), ("bind", "minlen", ("or", ("phi",), ("const",)))), fs)
-                if f is not None:
-                    got = {}
-                    for s, sf in Fl0.sources(e["minlen"]):
-                        for k in (0, 1):
-                            if M0.find_fact(("eq", hdr_field("header_level", HP), k), sf)[0] is not None:
-                                got[k] = const_val(s) if is_const(s) else None
-                    rep.check(rid, got == {0: 22, 1: 25}, "min_len is 22 for level 0 and 25 for level 1", l0.file, "recovered %s" % got,
-                              function=l0.cname, obj="min_len")
-                    f2, e2 = M0.find_fact(("ule", ("bin", "add", ("bind", "m2"), raw_at(21)), raw_at(0)), fs)
-                    got2 = {}
-                    if f2 is not None:
-                        for s, sf in Fl0.sources(e2["m2"]):
-                            for k in (0, 1):
-                                if M0.find_fact(("eq", hdr_field("header_level", HP), k), sf)[0] is not None:
-                                    got2[k] = const_val(s) if is_const(s) else None
-                    rep.check(rid, f2 is not None and (e2["m2"] == e["minlen"] or got2 == got), "both rules use the same min_len (the same value, or the same per-level constants)", l0.file,
-                              "second rule uses %s" % got2 if f2 is not None else None,
-                              function=l0.cname, obj="min_len_same")
-        rid = rep.rule("R4b", "level 1: success only if level-0 part, extended-header read and extended-header decode all succeeded", 3)
-        l1 = rep.need(rid, mod.fn("decode_level1_header"), "function decode_level1_header")
-        if l1:
-            require_on_success(rep, rid, ctx, l1, [
-                ("decode_level0_header != 0", ("ne", ("call", "decode_level0_header", [("param", 0), ("param", 1)]), 0)),
-                ("read_l1_extended_headers != 0", ("ne", ("call", "read_l1_extended_headers", [("param", 0), ("param", 1)]), 0)),
-                ("decode_extended_headers(header, raw_len_before - 2) != 0", ("ne", ("call", "decode_extended_headers", [("or", ("param", 0), ("load", ("param", 0))), ("bin", "sub", RAWLEN, 2)]), 0)),
-            ])
-        rid = rep.rule("R4c", "level 2: success only with header_len >= 26, full read, extended-header chain from offset 24 accepted", 3)
-        l2 = rep.need(rid, mod.fn("decode_level2_header"), "function decode_level2_header")
-        if l2:
-            hl = ("call", "lha_decode_uint16", [("gep", RAW, [0])])
-            require_on_success(rep, rid, ctx, l2, [
-                ("header_len >= 26", ("uge", hl, 26)),
-                ("extend_raw_data(header, stream, header_len - raw_data_len) != NULL",
-                 ("ne", ("call", "extend_raw_data", [("param", 0), ("param", 1), ("bin", "sub", hl, RAWLEN)]), 0)),
-                ("decode_extended_headers(header, 24) != 0", ("ne", ("call", "decode_extended_headers", [("or", ("param", 0), ("load", ("param", 0))), 24]), 0)),
-            ])
-        rid = rep.rule("R4d", "level 3: success only with word size 4, base read to 32, header_len <= 1 MiB and >= bytes held, full read, chain from offset 28 accepted", 6)
-        l3 = rep.need(rid, mod.fn("decode_level3_header"), "function decode_level3_header")
-        if l3:
-            hl = ("call", "lha_decode_uint32", [("gep", RAW, [24])])
-            require_on_success(rep, rid, ctx, l3, [
-                ("word size == 4", ("eq", ("call", "lha_decode_uint16", [("gep", RAW, [0])]), 4)),
-                ("extend_raw_data(header, stream, 32 - raw_data_len) != NULL",
-                 ("ne", ("call", "extend_raw_data", [("param", 0), ("param", 1), ("bin", "sub", 32, RAWLEN)]), 0)),
-                ("header_len <= 1 MiB", ("ule", hl, MiB)),
-                ("header_len >= raw_data_len", ("uge", hl, RAWLEN)),
-                ("extend_raw_data(header, stream, header_len - raw_data_len) != NULL",
-                 ("ne", ("call", "extend_raw_data", [("param", 0), ("param", 1), ("bin", "sub", hl, RAWLEN)]), 0)),
-                ("decode_extended_headers(header, 28) != 0", ("ne", ("call", "decode_extended_headers", [("or", ("param", 0), ("load", ("param", 0))), 28]), 0)),
-            ])
-        rid = rep.rule("R4e", "chain walker: an extended header is decoded only if field_size + 1 <= ext_len <= bytes available", 2)
-        de = rep.need(rid, mod.fn("decode_extended_headers"), "function decode_extended_headers")
-        if de:
-            calls = list(de.calls("lha_ext_header_decode"))
-            if not calls:
-                rep.broken(rid, "no call to lha_ext_header_decode in decode_extended_headers")
-            for c in calls:
-                guarded_site(rep, rid, ctx, c, [
-                    ("ext_len >= field_size + 1", ("uge", ("bind", "len"), ("bin", "add", ("bind", "fs"), 1))),
-                    ("ext_len <= available_length", ("ule", ("bind", "len2"), ("bind", "avail"))),
-                ])
-            # success return only through the loop exits (zero length or offset past end), never from the reject edge
-            F = ctx.facts(de)
-            M = Matcher(de)
-            for v, pb, b in success_edges(F, de):
-                fs = facts_for_success(F, de, v, pb, b)
-                bad, _ = M.find_fact(("ult", ANY, ("bin", "add", ANY, 1)), fs)
-                bad2, _ = M.find_fact(("ugt", ("bind", "l"), ("bind", "a")), [f for f in fs if f[0] in ("ugt", "ult")
-                                                                              and M.match(("or", ("call", "lha_decode_uint16"), ("call", "lha_decode_uint32"), ("bind", "p")), f[1], {}) is not None
-                                                                              and de.defn(M.strip(f[1])) is not None and de.defn(M.strip(f[1])).op == "phi" and False])
-                rep.check(rid, bad is None, "success return is not taken from the reject edge", de.file, None, function=de.cname, obj="reject")
-        # R4e': the accepted extended header AND the size field that follows it lie inside the bytes held
-        rid = rep.rule("R4e2", "chain walker: at each decode call offset + ext_len + field_size <= raw_data_len (symbolic linear bounds: guard fact + conservation of available_length + offset)", 3)
-        if de:
-            from ..ir import Module as IRModule
-            from ..range import Unit, Analysis, I
-            from ..sym import Sym
-            from ..rangedrv import generic_contracts
-            hmod = ctx.inlined("header")
-            hf = hmod.fn("lha_file_header_read")
-            if rep.need(rid, hf, "inlined lha_file_header_read") is not None:
-                Mh = Matcher(hf)
-                unit = Unit(hmod)
-                # A-size63: byte counts of allocated objects are below 2^62 (malloc cannot succeed otherwise)
-                unit.given = {("LHAFileHeader", "raw_data_len"): (I(0, 1 << 62), "A-size63")}
-                an = Analysis(hf, unit, generic_contracts(hmod, hf))
-                an.run()
-                an.narrow(3)
-                sy = Sym(an, ctx.facts(hf), ideal=True)
-                calls = [c for c in hf.insts() if c.op == "call" and c.callee is None and any(l.get("fn") == "decode_extended_headers" for l in c.loc)]
-                if len(calls) < 3:
-                    rep.broken(rid, "expected the chain walker to be inlined at 3 sites (levels 1, 2, 3), found %d" % len(calls))
-                for c in calls:
-                    e = Mh.match(("bin", "sub", ("bin", "sub", ("bind", "len"), ("bind", "fs")), 1), c.ops[2], {})
-                    e2 = Mh.match(("gep", ("gep", ("load", ("field", HDR, "raw_data", ANY)), [("bind", "idx")]), [1]), c.ops[1], {})
-                    rl = [f[2] for f in sy.F.at_inst(c) if f[0] in ("ule", "ult") and not is_const(f[2]) and
-                          Mh.match(("bin", "sub", ("load", ("field", HDR, "raw_data_len", ANY)), ANY), f[2], {}) is not None]
-                    if e is None or e2 is None or not rl:
-                        rep.violation(rid, "operands of the decode call recognised", c.where(), "cannot recover offset / ext_len / field_size / raw_data_len", function=de.cname, obj="operands")
-                        continue
-                    rlen = Mh.match(("bin", "sub", ("bind", "rl", ("load", ("field", HDR, "raw_data_len", ANY))), ANY), rl[0], {})["rl"]
-                    # idx = offset + fs is where the type byte lives; the header occupies [idx - fs, idx - fs + ext_len)
-                    Ls = [sy.lin(e2["idx"], c), sy.lin(e["len"], c), sy.lin(rlen, c)]
-                    if any(x is None for x in Ls):
-                        rep.violation(rid, "linear forms", c.where(), "not linear", function=de.cname, obj="linear")
-                        continue
-                    tot = Ls[0].add(Ls[1]).add(Ls[2], -1)
-                    hi = sy.upper_lin(tot, c)
-                    rep.check(rid, hi <= 0, "(offset + field_size) + ext_len - raw_data_len <= 0 at the decode call (%s)" % c.where().split(" <- ")[-2 if " <- " in c.where() else -1][:60], c.where(),
-                              "symbolic upper bound is %s: an accepted extended header may extend into (or past) the bytes needed for the next size field" % hi,
-                              function=de.cname, obj="room-for-next-size")
-                rep.assumptions.append("A-hdr32 (rule R4e2 only): offsets and lengths inside one header are reasoned about as mathematical integers, i.e. a single header's raw data is "
-                                       "shorter than 4 GiB so that the 32-bit `offset` does not wrap")
-        rid = rep.rule("R4f", "level-1 extended headers: each must be covered by compressed_length and be at least 3 bytes; read failure rejects", 3)
-        r1 = rep.need(rid, mod.fn("read_l1_extended_headers"), "function read_l1_extended_headers")
-        if r1:
-            F = ctx.facts(r1)
-            M = Matcher(r1)
-            sts = stores_to_field(mod, HDR, "compressed_length", [r1])
-            if len(sts) != 1:
-                rep.broken(rid, "expected exactly one store to compressed_length in read_l1_extended_headers, found %d" % len(sts))
-            for s in sts:
-                e = M.match(("bin", "sub", hdr_field("compressed_length", HP), ("bind", "len")), s.ops[0], {})
-                rep.check(rid, e is not None, "compressed_length -= ext_header_len", s.where(), None, function=r1.cname, obj="sub")
-                if e is not None:
-                    guarded_site(rep, rid, ctx, s, [
-                        ("compressed_length >= ext_header_len", ("uge", hdr_field("compressed_length", HP), ("inst", e["len"][1]))),
-                        ("extend_raw_data(header, stream, ext_header_len) != NULL", ("ne", ("call", "extend_raw_data", [("param", 0), ("param", 1), ("inst", e["len"][1])]), 0)),
-                    ])
-                    # the loop continues (back edge) only if ext_len >= 3
-                    for lp in r1.loops():
-                        for latch in lp["latches"]:
-                            fs = F.on_edge(latch, lp["header"])
-                            f, _ = M.find_fact(("uge", ("inst", e["len"][1]), 3), fs)
-                            rep.check(rid, f is not None, "next iteration only if ext_header_len >= 3",
-                                      "%s:%s" % (r1.file, r1.blocks[latch].term.line()), None, function=r1.cname, obj="min3")
-        rid = rep.rule("R4g", "extend_raw_data fails unless the stream delivered all requested bytes, and only then grows raw_data_len by that amount", 2)
-        ex = rep.need(rid, mod.fn("extend_raw_data"), "function extend_raw_data")
-        if ex:
-            require_on_success(rep, rid, ctx, ex, [
-                ("nbytes <= 1 MiB", ("ule", ("param", 2), MiB)),
-                ("lha_input_stream_read(stream, result, nbytes) != 0", ("ne", ("call", "lha_input_stream_read", [("param", 1), ANY, ("param", 2)]), 0)),
-            ])
-            for s in stores_to_field(mod, HDR, "raw_data_len", [ex]):
-                guarded_site(rep, rid, ctx, s, [("stream read succeeded", ("ne", ("call", "lha_input_stream_read", [("param", 1), ANY, ("param", 2)]), 0))])
+        length_rules(rep, ctx, mod, cg)
 
         presence_rules(rep, ctx, mod, cg)
 
